@@ -3,3 +3,15 @@ open ZnVerif.Properties.C09
 #print axioms raise_skips_rest
 #print axioms throw_raises
 #print axioms break_is_signal
+#print axioms body_error_goes_to_handlers
+#print axioms handler_matches_first_class
+#print axioms unmatched_propagates_unchanged
+#print axioms runtime_fault_is_catchable
+#print axioms non_exception_errors_pass
+#print axioms handler_this_is_exception
+#print axioms runHandlerA_run
+#print axioms handler_value_or_null
+#print axioms catch_restores_stack
+#print axioms catch_restores
+#print axioms function_converts_runtime_error
+#print axioms function_passes_other_errors
